@@ -188,7 +188,7 @@ class Spec:
         """An exhausted generator that was started again finishes in its turn without running any
         code, so the moment is invisible in the execution log; when a body then acts on it, either
         answer (before / after its turn) is accepted: the implementation's answer decides."""
-        if not (self.is_gen(h) and self.in_frame and self.eligible(h) and h in self.must
+        if not (self.is_gen(h) and self.in_frame and self.eligible(h)
                 and not self.runs_code(h) and impl_line is not None):
             return
         after_turn = {'state': ' T', 'kill': ' raised ValueError', 'start': ' ok'}[a]
